@@ -12,6 +12,8 @@ from units.pack2 import SPEC as PACK2_SPEC
 
 SPEC = r'''
 verus! {
+/// every instance's public values have the length `allocate` was given for that instance (native: PublicValuesLengthMismatch)
+pub uninterp spec fn per_instance_lengths_are_the_allocated_ones(v: Seq<Vec<Fv>>) -> bool;
 /// `PublicInputBuilder<F>`: a growing vector; `add_proof_values(iter)` appends the iterator's items (here: a vector's elements, in order)
 pub struct PublicInputBuilder { pub inputs: Vec<Fv> }
 impl PublicInputBuilder {
@@ -152,6 +154,8 @@ def build():
     bp.rewrite_re('R11', r'BatchProofTargets::<SC, Comm, OpeningProof>::get_values\(', 'PT::get_values(', min_count=0)
     bp.rewrite_re('R6', r'construct_batch_stark_verifier_inputs\(air_public_values, &proof_values, &common_data\)', 'construct_batch_stark_verifier_inputs(air_public_values, proof_values.as_slice(), common_data.as_slice())', min_count=0)
     bp.ensures('packed_in_allocation_order', 'ret@ == flat_vv(air_public_values@) + PT::pub_vals(proof) + CD::pub_vals(common)')
+    # C15 (open finding): the packer flattens; nothing compares the per-instance lengths with the windows `allocate` made, so values re-cut across instances ([[42, 50], []] for [[42], [50]]) are packed like the honest ones
+    bp.ensures('H_each_instances_values_have_the_length_allocated_for_that_instance', 'per_instance_lengths_are_the_allocated_ones(air_public_values@)')
     bv = u.extract(P, BI, 'pack_private_values', 'BatchStarkVerifierInputsBuilder::pack_private_values')
     bv.set_sig('R11', 'fn pack_private_values<PT: Rec>(proof: &PT::Input) -> Vec<Fv>', drop_self=True)
     bv.rewrite_re('R11', r'BatchProofTargets::<SC, Comm, OpeningProof>::get_private_values\(', 'PT::get_private_values(', min_count=0)
